@@ -280,6 +280,14 @@ def judge(prop, f, impl, model, spec):
                 if not j.viol and impl != model:
                     j.mismatch = "pattern-cache history differs from the verified cache model (loader calls / entries): impl=%s model=%s" % (impl[:300], model[:300])
             j.nontrivial = True
+        elif kind == "tmpl":
+            if not impl.startswith("tmpl:"):
+                j.viol = "replace() on a single whole-subject match failed: " + impl[:200]
+            elif impl != spec:
+                j.viol = "replace(): the replacement string is not expanded as ReplaceAllString with $n read as group n: got=%s spec=%s" % (impl, spec)
+            elif impl != model:
+                j.mismatch = "replacement-template model differs from the package: impl=%s model=%s" % (impl, model)
+            j.nontrivial = True
         elif kind == "regex":
             if impl.startswith("regex:"):
                 got, want = impl[6:].split("~", 1)
@@ -523,7 +531,7 @@ def run_property(prop, tier, seed, xh, workdir, findings, facts, search=False):
 RULES = {
     "C01": "all ordered pairs of (axis,test) steps x heads x joints (strided in the quick tier) + all single steps + random longer paths, on every tree shape up to 5/6 nodes under random labelings and random larger documents; non-trivial = distinct case whose XPath denotation is non-empty",
     "C10": "every operator chain up to length 3 (quick) / 4 (thorough) over 14 operators, exhaustively; whitespace and abbreviation metamorphic pairs; non-trivial = distinct case with a reference parse or a non-empty result",
-    "C16": "every key sequence of length 5 (quick) / 7 (thorough) over 4/5 keys incl. a failing key, for capacities 0..4, exhaustively; random long sequences; regex triples against Go regexp",
+    "C16": "every key sequence of length 5 (quick) / 7 (thorough) over 4/5 keys incl. a failing key, for capacities 0..4, exhaustively; random long sequences; regex triples against Go regexp; replacement templates (random over $ digits braces names) on single whole-subject matches of 20 group structures: package = template model = specification",
 }
 
 
